@@ -17,7 +17,8 @@ HITS = {"invariant": 0}
 
 
 def draw_case(g, idx):
-    fam = GL.FAMILIES[idx % len(GL.FAMILIES)] if g.random() < 0.7 else str(g.choice(GL.FAMILIES))
+    fams = GL.FAMILIES + GL.HYBRID_EXTRA
+    fam = fams[idx % len(fams)] if g.random() < 0.7 else str(g.choice(fams))
     desc = {"family": fam, "seed": int(g.integers(0, 2**31 - 1)), "scale": float(10 ** g.uniform(-1.5, 0.7))}
     if g.random() < 0.25:
         desc["form"] = str(g.choice(["int", "int", "np_int", "np_float"]))
